@@ -15,7 +15,7 @@ P("C12",
              "c12_no_duplicate_tick_events (strictly increasing tick times; no two queued tick events share a time), "
              "c12_progress_reticks (after Tick() returned true the NEXT tick is exactly at the next edge and cannot be skipped), "
              "c12_notify_later_edge (after NotifyRecv/NotifyPortFree/TickLater the tick at the next edge is dispatched or still "
-             "queued with time not beyond it, and no tick lies strictly in between), c12_no_panic; c12_tick_now_where characterises "
+             "queued with time not beyond it, and no tick lies strictly in between), c12_no_panic; c12_on_edge_once_per_instant_all_histories (clauses 1-2 for EVERY legal non-panicking history over 64-bit times, wrap-around of ThisTick/NextTick included, no range hypothesis); c12_tick_now_where characterises "
              "TickNow including the same-instant drop after the tick was handled (C09's finding, witness included; not a C12 clause); "
              "regression lemmas refute the mutations >= -> > and NextTick -> ThisTick and show the silent stop at the 2^64 wrap. "
              "Tie: scripted multi-component runs (1-4 components, mixed and non-dividing periods, primary/secondary, self calls, optionally real messaging ports and a real noc/directconnection whose own TickScheduler is projected and replayed too, "
@@ -29,7 +29,7 @@ P("C12",
              "c12_model_agreement_implies_property proves check_case -> holds_on for cases inside the representable range (wf_case). Checkpoint restore of the guard is out of scope (C06).",
   quick_shards=8,
   assumptions=["engine contract (C01): time never decreases, no pending event is skipped, each scheduled event is dispatched once, handlers are not re-entered",
-               "theorems quantify over histories in which every engine time t has least_multiple_gt(period, t) < 2^64 (beyond that the code wraps: modelled, tied, witnessed, excluded from the clauses)"],
+               "clauses 3-4 (and the link theorem) quantify over histories in which every engine time t has least_multiple_gt(period, t) < 2^64; beyond that the code wraps and silently stops re-ticking (modelled, tied, witnessed); clauses 1-2 are also proved without this hypothesis"],
   trusted=["modelled, not verified: modeling/ticker.go (TickScheduler.TickNow/TickLater, TickingComponent.NotifyRecv/NotifyPortFree/Handle); timing/freq.go via C42's model",
            "not modelled: TickScheduler.snapshot/restore (checkpoint), the mutex (serial engine: single goroutine)"],
   )
